@@ -146,6 +146,10 @@ def binop(it, op, a, b, node):
             raise RaiseEx("ZeroDivisionError", it.site(node), "constant division by zero", True)
         except Exception:
             return VUnknown("binop", "unknown")
+    if op == "MatMult" and (isinstance(a, VTens) or isinstance(b, VTens)):
+        from .ops_ext import torch_matmul
+
+        return torch_matmul(it, [a, b], {}, node)
     if isinstance(a, VTens) or isinstance(b, VTens):
         return tensor_binop(it, op, a, b, node)
     if is_number(a) and is_number(b):
@@ -228,7 +232,10 @@ def tensor_binop(it, op, a, b, node):
     else:
         t = complexwise(op, ta, tb, sa, sb)
     kind = "tensor" if "tensor" in kinds else "ndarray"
-    return it.fresh(t, shape, kind, node)
+    r = it.fresh(t, shape, kind, node)
+    if op == "Mult" and isinstance(a, VTens) and isinstance(b, VTens) and ta is not None and tb is not None:
+        r.obj.prod_parts = (t, ta, sa, tb, sb)  # lets sum(-1) of a (.., n) x (n,) product be read as a matrix-vector product
+    return r
 
 
 def unaryop(it, op, v, node):
